@@ -72,11 +72,14 @@ func render(spec *servlab.C09Spec, global [][]int, rawOps []rawOp) []byte {
 	}
 	doc := map[string]any{"openapi": "3.0.3", "info": map[string]any{"title": "sec", "version": "1"}, "paths": paths, "components": map[string]any{"securitySchemes": ss}}
 	if global != nil {
-		doc["security"] = secList(spec, global, nil)
+		doc["security"] = secList(spec, global, globalScopes)
 	}
 	b, _ := json.Marshal(doc)
 	return b
 }
+
+// globalScopes: OAuth2 scopes of the top-level requirement of the document being built (nil = none)
+var globalScopes map[int][]string
 
 type rawOp struct {
 	path   string
@@ -176,7 +179,11 @@ func Main(args []string) int {
 					live = append(live, a)
 				}
 			}
-			sp.Ops = append(sp.Ops, servlab.C09Op{Path: o.path, Mode: o.mode, Alts: live, Scopes: o.scopes, Unsatisfiable: len(eff) > 0 && len(live) == 0})
+			sc := o.scopes
+			if o.mode == "global" {
+				sc = globalScopes
+			}
+			sp.Ops = append(sp.Ops, servlab.C09Op{Path: o.path, Mode: o.mode, Alts: live, Scopes: sc, Unsatisfiable: len(eff) > 0 && len(live) == 0})
 		}
 		specs = append(specs, sp)
 		docs = append(docs, render(&sp, global, ops))
@@ -224,6 +231,18 @@ func Main(args []string) int {
 			{path: "/later", mode: "op", alts: [][]int{{3}, {2, 0}, {2}}},
 		}
 		add(servlab.C09Spec{Schemes: mkSchemes(kinds), Exhaustive: true, Client: false}, [][]int{{0, 1}, {1, 3}}, ops)
+	}
+	// a top-level OAuth2 requirement inherited by several operations (each must see the scopes), next to overrides
+	{
+		kinds := []string{"oauth2", "header", "cookie"} // one scheme per Authorization header
+		globalScopes = map[int][]string{0: {"read", "write"}}
+		ops := []rawOp{
+			{path: "/i1", mode: "global"}, {path: "/i2", mode: "global"}, {path: "/i3", mode: "global"}, {path: "/i4", mode: "global"},
+			{path: "/own", mode: "op", alts: [][]int{{0}}, scopes: map[int][]string{0: {"admin"}}},
+			{path: "/none", mode: "none"},
+		}
+		add(servlab.C09Spec{Schemes: mkSchemes(kinds), Exhaustive: true, Client: true}, [][]int{{0, 1}, {2}}, ops)
+		globalScopes = nil
 	}
 	// global / override / none
 	{
